@@ -51,3 +51,20 @@ func ScratchDir() string {
 	os.MkdirAll(p, 0o755)
 	return p
 }
+
+// StartLikeMain starts a daemon the way apps/nsqd does: LoadMetadata,
+// PersistMetadata, then Main in the background.
+func StartLikeMain(opts *nsqd.Options) (*nsqd.NSQD, error) {
+	n, err := nsqd.New(opts)
+	if err != nil {
+		return nil, err
+	}
+	if err := n.LoadMetadata(); err != nil {
+		return nil, err
+	}
+	if err := n.PersistMetadata(); err != nil {
+		return nil, err
+	}
+	go func() { _ = n.Main() }()
+	return n, nil
+}
